@@ -352,8 +352,8 @@ impl RandSeq {
         let bad = rng.chance(1, 10);
         let batch = rng.chance(15, 100);
         if batch {
-            let len = 1 + rng.below(4);
-            let bad_at = if bad { Some(rng.below(len)) } else { None };
+            let len = [0usize, 1, 1, 2, 2, 3, 3, 4, 5, 6, 8][rng.below(11)];
+            let bad_at = if bad && len > 0 { Some(rng.below(len)) } else { None };
             let mut pairs = Vec::with_capacity(len);
             for i in 0..len {
                 let (a, b) = if bad_at == Some(i) {
